@@ -112,6 +112,9 @@ def report_to_dict(rep, vr, kind, wall):
         'ensures': [e.__name__ for e in getattr(c, 'ensures', [])],
         'raises': {k: (v.__name__ if v is not None else None) for k, v in getattr(c, 'raises', {}).items()},
         'native_call': getattr(c, 'native_call', None),
+        'free_vars': list(getattr(c, 'free_vars', ()) or ()), 'record_mode': bool(getattr(c, 'record', False)),
+        'has_prepare': (getattr(c, 'prepare', None) is not None or bool(getattr(c, 'closure_env', None))
+                        or bool(getattr(c, 'modular', None)) or bool(getattr(c, 'ghost', None))),
         'trusted': sorted(vr.world.trusted), 'dropped': sorted(vr.world.dropped),
         'inlined': sorted(vr.world.inlined),
         'solver_ms': round(vr.explorer.solver_ms, 1), 'branch_queries': vr.explorer.branch_queries,
@@ -328,7 +331,8 @@ def main():
                 spec = {'property': pid, 'obligation': r['name'], 'kind': r['kind'], 'target': rep['target'],
                         'contract_module': mod.__name__, 'clause': clause, 'args': r['witness'],
                         'param_order': rep['param_order'], 'allowed_raises': rep['raises'],
-                        'native_call': rep['native_call'],
+                        'native_call': rep['native_call'], 'free_vars': rep.get('free_vars', []),
+                        'record_mode': rep.get('record_mode', False), 'has_prepare': rep.get('has_prepare', False),
                         'scenario': r['scenario'], 'detail': r['detail'],
                         'solver': {'backend': r['backend'], 'ms': r['ms'], 'result': 'sat'},
                         'source_sha256': rep['source_sha256'], 'file': rep['file'], 'lines': rep['lines'],
